@@ -123,6 +123,10 @@ def py_eq(I: Interp, a, b):
             pass  # user __eq__ may still say no; fall through
         elif not isinstance(a, (SInt, SReal, SStr, SBool)):
             return True
+    if hasattr(a, "pysym_eq"):
+        return a.pysym_eq(I, b)
+    if hasattr(b, "pysym_eq"):
+        return b.pysym_eq(I, a)
     if isinstance(a, Obj) or isinstance(b, Obj):
         for x, y in ((a, b), (b, a)):
             if isinstance(x, Obj):
@@ -459,6 +463,8 @@ def getattr_(I: Interp, o, name: str):
         if name == "__class__":
             return o.cls
         raise PyRaise(ExcVal("AttributeError", (name,)))
+    if isinstance(o, ClassVal) and o.node is None and f"{o.name}.{name}" in I.intrinsics:
+        return I.intrinsics[f"{o.name}.{name}"]
     if isinstance(o, ClassVal):
         m = o.lookup(name)
         if m is not None:
@@ -648,6 +654,25 @@ def install(I: Interp):
     X["any"] = Intrinsic("any", lambda I_, it: any(truthy(I_, x) for x in iterate(I_, it)))
     X["set"] = Intrinsic("set", lambda I_, it=(): set(iterate(I_, it)))
     X["dict"] = Intrinsic("dict", lambda I_, it=(): dict(it) if isinstance(it, dict) else dict(iterate(I_, it)))
+    import builtins as _b
+    import keyword as _k
+
+    class NameSet:
+        def __init__(self, names):
+            self.names = sorted(names)
+
+        def pysym_contains(self, I_, x):
+            if isinstance(x, str):
+                return x in self.names
+            if hasattr(x, "eq"):
+                return SBool(z3.Or(*[x.eq(n) for n in self.names]))
+            raise Unsupported("membership of a non-string in a name set")
+
+    X["builtins.__dict__"] = NameSet(list(_b.__dict__))
+    X["keyword.iskeyword"] = Intrinsic("keyword.iskeyword", lambda I_, x: NameSet(_k.kwlist).pysym_contains(I_, x))
+    X["str.maketrans"] = Intrinsic("str.maketrans", lambda I_, d: {(ord(k) if isinstance(k, str) else k): v for k, v in d.items()})
+    X["builtins"] = ExtModule("builtins")
+    X["keyword"] = ExtModule("keyword")
     X["object"] = I.external_class("object")
     for ext, short in (("decimal.Decimal", "Decimal"), ("fractions.Fraction", "Fraction"), ("Fraction", "Fraction"),
                        ("float", "float"), ("int", "int"), ("str", "str"), ("bytes", "bytes"), ("numbers.Number", "Number"),
